@@ -279,6 +279,33 @@ def dof_session(rng, ctx, variant):
         s.cun('exp', u); e = _last_c(s); s.cread('df', e)
         s.cbin('mul', ('c', q), ('c', u)); s.cread('df', _last_c(s))
         s.cread('df', wq); s.cread('df', e)
+    elif variant == 'getset':
+        # the single-argument forms get_correlation(z) / get_covariance(z) / set_correlation(r, z) of an elementary
+        # ucomplex, interleaved in every order with the reads that fill caches (z.r, z.u, z.v, z.df = what repr(z) reads)
+        k = rng.random()
+        if k < 0.4: s.ucomplex(zval(), (0.5, 0.25), math.inf, indep=False); z = _last_c(s)
+        elif k < 0.6: s.ucomplex(zval(), rng.choice([(1.0, 0.2, 0.2, 2.0), (0.04, -0.01, -0.01, 0.09)]), rng.choice([math.inf, df1])); z = _last_c(s)
+        elif k < 0.8: s.cmultiple([zval(), zval()], [(0.5, 0.25), (0.1, 0.2)], df1); z = _last_c(s) - 2
+        else: s.ucomplex(zval(), (0.5, 0.25), rng.choice([math.inf, df1])); z = _last_c(s)          # independent: set raises
+        s.ucomplex(zval(), (0.3, 0.6), math.inf, indep=False); w = _last_c(s)
+        acts = [lambda: s.cread('r', z), lambda: s.cread('u', z), lambda: s.cread('v', z), lambda: s.cread('df', z),
+                lambda: s.cget_corr(z), lambda: s.cget_corr(z, cov=True),
+                lambda: s.cset_corr(rng.choice([0.5, -0.25, 0.125, 0.3, 1.0, -1.0, 0.0]), z, None)]
+        order = list(range(len(acts))); rng.shuffle(order)
+        for i in order: acts[i]()
+        s.cget_corr(z); s.cget_corr(z, cov=True)
+        s.cset_corr(rng.choice([0.7, -0.6, 0.2]), z, None)
+        s.cget_corr(z); s.cget_corr(z, cov=True); s.cread('r', z); s.cread('v', z); s.read('u', z); s.get_corr(z, z + 1); s.get_cov(z, z + 1)
+        # two-argument forms, and results that depend on z
+        s.cset_corr([0.1, 0.35, -0.2, 0.05], z, ('c', w))
+        for b in (('c', w), ('c', z), ('r', w), ('r', z + 1), ('n', 1j)):
+            s.cget_corr(z, b, cov=rng.random() < 0.5); s.cget_corr(w, b, cov=rng.random() < 0.5)
+        s.cbin('mul', ('c', z), ('c', w)); c = _last_c(s)
+        acts2 = [lambda: s.cget_corr(c), lambda: s.cget_corr(c, cov=True), lambda: s.cread('r', c), lambda: s.cread('v', c),
+                 lambda: s.cget_corr(c, ('c', z)), lambda: s.cget_corr(c, ('r', z), cov=True), lambda: s.cset_corr(0.4, w, None)]
+        rng.shuffle(acts2)
+        for a2 in acts2: a2()
+        s.cget_corr(c); s.cget_corr(c, cov=True)
     elif variant == 'realens':
         # complex results built from members of a finite-dof REAL ensemble (known C05 finding) and from dependent reals
         s.multiple([1.0, 2.0, 0.5], [1.0, 0.5, 0.25], rng.choice([5.0, math.inf])); a = len(s.slots) - 3
@@ -329,7 +356,7 @@ def dof_session(rng, ctx, variant):
     s.heap_ok = s.check_heap(); s.close()
     return s
 
-DOF_VARIANTS = ['indep', 'ensemble', 'partial', 'failthen', 'realens', 'setcorr', 'conj']
+DOF_VARIANTS = ['indep', 'ensemble', 'partial', 'failthen', 'realens', 'setcorr', 'getset', 'conj']
 
 # ------------------------------------------------------------------ uncertain real (op) plain complex number
 CLITS = [1 + 0j, 0j, 1j, 2 + 1j, complex(0.0, -0.0), complex(1.0, -0.0), -1j, 0.5 - 2j, 3 + 0j, complex(-0.0, 0.0)]
@@ -350,8 +377,14 @@ def promo_session(rng, ctx, f, roles):
     for role in roles:
         x = rng.choice([2.0, -1.5, 0.5, 1.0, 0.0]) if f != 'div' else rng.choice([2.0, -1.5, 0.5])
         i = ureal_role(s, rng, role, x)
-        lits = list(CLITS); rng.shuffle(lits)
-        for c in lits[:6]:
+        # the literals that hit the identity shortcuts of this operator (== 0.0 for + -, == 1.0 for * / **) ALWAYS,
+        # for every role on both sides; the others sampled
+        ident = [0j, complex(0.0, -0.0), complex(-0.0, 0.0)] if f in ('add', 'sub') else [1 + 0j, complex(1.0, -0.0)]
+        lits = [c for c in CLITS if c not in ident]; rng.shuffle(lits)
+        seen_l = []
+        for c in ident + lits[:4]:
+            if any(c == d and math.copysign(1, c.real) == math.copysign(1, d.real) and math.copysign(1, c.imag) == math.copysign(1, d.imag) for d in seen_l): continue
+            seen_l.append(c)
             for A, B in ((('r', i), ('n', c)), (('n', c), ('r', i))):
                 n0 = len(s.slots)
                 s.cbin(f, A, B)
@@ -693,7 +726,7 @@ def build_sessions(rng, profile, tier='quick', n=None):
                 for _ in range(n or (5 if profile == 'all' else 12)):
                     sessions.append(dof_session(rng, nxt(), v))
     if 'rand' in want:
-        nrand = n or (60 if tier == 'quick' else 1500)
+        nrand = n or (45 if tier == 'quick' else 1500)
         for i in range(nrand):
             sessions.append(rand_session(rng, nxt(), rng.randint(10, 28), malformed=(i % 6 == 5)))
     return sessions
@@ -703,6 +736,8 @@ def run_ckernel_corr(rng, profile, name, tier='quick', n=None):
     Returns the dict check.py expects from a correspondence suite."""
     sessions = build_sessions(rng, profile, tier, n)
     mism = ckernel.run_sessions(sessions, name, per_file=max(8, (len(sessions) + NCPU - 1) // NCPU) if tier == 'quick' else 60)
+    import cpins
+    mism.extend(cpins.pinned_drift())      # an unproven generated body changed: reported, not followed
     stats = collections.Counter()
     for s in sessions: stats.update(s.stats)
     tags = collections.Counter(s.tag.split(':')[0] for s in sessions)
